@@ -395,8 +395,8 @@ pub fn def() -> PropertyDef {
 		rule: "Feature sets: the complete product {ring, aws_lc_rs, none} x {pem} x {x509-parser} x {zeroize} for rcgen plus {ring, aws_lc_rs} for rustls-cert-gen, each compiled with cargo check (driven by /verif/check; exhaustive). Differential: certificates / CSRs / CRLs over the C02/C07/C08 spaces with algorithms common to both back ends are generated by the ring build (parent) and by persistent child processes of the aws-lc-rs build and, when the case is expressible without a crypto library (explicit serial, pre-specified key identifiers), of the crypto-less build (remote signer); to-be-signed bytes must be byte-identical, signatures made by one back end must verify with the other's own verifier and with OpenSSL; keys generated and exported (DER/PEM) by one back end must load in the other with the same public key and algorithm. Non-trivial = artefact with at least one extension / attribute / entry; every key exchange; every non-default feature set.",
 		assumptions: vec!["the children run the same generator-independent Spec -> rcgen mapping (mk.rs), so a difference in output is a difference between the rcgen builds", "fips is not covered (needs a Go toolchain; not in the property's feature list)"],
 		subs: vec![
-			prop_sub("tbs-differential", 4_000, 200_000, common_art, check_tbs),
-			prop_sub("key-exchange", 600, 20_000, || (any::<u8>(), any::<bool>(), any::<bool>()).prop_map(|(alg, ring_to_aws, pem)| KeyXchg { alg, ring_to_aws, pem }).boxed(), check_keyx),
+			prop_sub("tbs-differential", 16_000, 200_000, common_art, check_tbs),
+			prop_sub("key-exchange", 2_400, 20_000, || (any::<u8>(), any::<bool>(), any::<bool>()).prop_map(|(alg, ring_to_aws, pem)| KeyXchg { alg, ring_to_aws, pem }).boxed(), check_keyx),
 		],
 	}
 }
